@@ -108,6 +108,12 @@ func (env *Env) lookupLocal(name string) (*ssa.Alloc, bool) {
 	if env.fn == nil {
 		return nil, false
 	}
+	if m := env.ex.eng.Renames[funcKey(env.fn)]; m != nil {
+		// the function's code has the recorded shape but a local was renamed: follow the renaming
+		if nn, ok := m[name]; ok {
+			name = nn
+		}
+	}
 	var best *ssa.Alloc
 	var bestScope *types.Scope
 	for _, b := range env.fn.Blocks {
